@@ -48,7 +48,9 @@ reachable; that every snapshotted edge is re-attached is not paired elementwise 
 from __future__ import annotations
 
 import ast
+import weakref
 
+from ..dataflow import reaching_defs
 from ..model import ancestors, enclosing_stmt, unparse
 from ..selftest import V
 from ._util_E import (
@@ -59,14 +61,15 @@ from ._util_E import (
     effective_arg,
     emptiness_atom,
     enclosing_loops,
-    guard_atoms,
     ids_at,
     is_self_attr,
     ktext,
     loops_of,
     membership_atom,
     must_follow,
+    only_via,
     signature_default,
+    split_atoms,
     strip_copy,
 )
 
@@ -323,6 +326,147 @@ def _inside(node, loop) -> bool:
     return any(a is body for a in ancestors(node))
 
 
+# --------------------------------------------------------------------------- tests read through their temporaries
+#
+# `if len(self.port_tokens[p]) == 0:` and `n = len(self.port_tokens[p]); if n == 0:` are the same test.  The guard readers
+# below see every dominating test in all its readings: as written, and with each local that is a *temporary* replaced by
+# the expression it holds (one level at a time, so that `cur = stack.pop(); if cur not in S` keeps the reading that names
+# `cur`).  A local is a temporary at a test when
+#   * exactly one definition reaches the read, a plain `name = expr` (no tuple target, no await/yield) that dominates the test,
+#   * every name inside `expr` has the same reaching definitions at the assignment and at the test (nothing re-bound), and
+#   * when `expr` reads the heap (subscript / attribute / call): no statement that can run between the assignment and the
+#     test mutates anything (mutator call, `del`, store into a subscript / attribute, augmented assignment) -- the value
+#     tested is then the value the expression has at the test.  A stale temporary (`n = len(s); s.discard(x); if n == 0`)
+#     is therefore not read as a test of `s`, and the clause that needs the test is reported as not met.
+
+_HEAP_MUTATORS = {
+    "add", "remove", "discard", "pop", "clear", "update", "setdefault", "append", "appendleft", "extend", "popitem", "popleft", "insert",
+    "difference_update", "intersection_update", "symmetric_difference_update", "sort", "reverse", "__setitem__", "__delitem__",
+}
+_XTESTS: "weakref.WeakKeyDictionary" = weakref.WeakKeyDictionary()
+
+
+def _copy(node, repl=None):
+    """Fresh copy of an expression (no `_parent` links); copied names remember the analysed node they stand for
+    (`_sf_src`), `repl` maps id(name node) -> factory of the expression to put in its place."""
+    if repl and id(node) in repl:
+        return repl[id(node)]()
+    if not isinstance(node, ast.AST):
+        return node
+    fields = {}
+    for k, v in ast.iter_fields(node):
+        if isinstance(v, list):
+            fields[k] = [_copy(x, repl) for x in v]
+        else:
+            fields[k] = _copy(v, repl)
+    new = type(node)(**fields)
+    if isinstance(node, ast.Name):
+        new._sf_src = getattr(node, "_sf_src", None) or (node if getattr(node, "_parent", None) is not None else None)
+    if hasattr(node, "_sf_eval"):
+        new._sf_eval = node._sf_eval
+    return new
+
+
+def _mutates_heap(cfg_node) -> bool:
+    for x in cfg_node.walk():
+        if isinstance(x, (ast.Delete, ast.AugAssign)):
+            return True
+        if isinstance(x, (ast.Subscript, ast.Attribute)) and isinstance(x.ctx, (ast.Store, ast.Del)):
+            return True
+        if isinstance(x, ast.Call) and isinstance(x.func, ast.Attribute) and x.func.attr in _HEAP_MUTATORS:
+            return True
+    return False
+
+
+def _def_key(ds):
+    return sorted((d.kind, id(d.stmt), str(d.index)) for d in ds)
+
+
+def _temp_def(f, name, test):
+    """`name` (an analysed ast.Name, read in or on behalf of the CFG test node `test`) is a temporary at that test ->
+    (value expression, CFG ids of its assignment), else None."""
+    g = f.cfg
+    ds = reaching_defs(f, name.id, name)
+    if len(ds) != 1:
+        return None
+    d = ds[0]
+    st = d.stmt
+    if d.kind != "assign" or d.index is not None or d.value is None or not isinstance(st, ast.Assign) or len(st.targets) != 1 or not isinstance(st.targets[0], ast.Name):
+        return None
+    if any(isinstance(x, (ast.Await, ast.Yield, ast.YieldFrom, ast.Lambda)) for x in ast.walk(d.value)):
+        return None
+    dids = g.ids_of(st)
+    if not dids or test.id in dids or not g.dominates(dids, test.id):
+        return None
+    bound_here = {x.target.id for x in ast.walk(d.value) if isinstance(x, ast.NamedExpr)}
+    for m in ast.walk(d.value):
+        if isinstance(m, ast.Name) and isinstance(m.ctx, ast.Load) and m.id not in bound_here:
+            if _def_key(reaching_defs(f, m.id, m)) != _def_key(reaching_defs(f, m.id, test.ast)):
+                return None
+    if any(isinstance(x, (ast.Subscript, ast.Attribute, ast.Call)) for x in ast.walk(d.value)):
+        stop = set(dids) | {test.id}
+        for x in g.reach(dids, avoid=stop):
+            if _mutates_heap(g.nodes[x]) and g.path(x, [test.id], avoid=dids) is not None:
+                return None
+    return d.value, tuple(dids)
+
+
+def _expand1(f, e, test):
+    """e with every temporary it reads directly replaced by the expression the temporary holds; None if there is none."""
+    repl = {}
+    rebound = {x.target.id for x in ast.walk(e) if isinstance(x, ast.NamedExpr)}
+    for n in ast.walk(e):
+        if not (isinstance(n, ast.Name) and isinstance(n.ctx, ast.Load)) or n.id in rebound or n.id == "self":
+            continue
+        src = getattr(n, "_sf_src", None) or (n if getattr(n, "_parent", None) is not None else None)
+        if src is None:
+            continue
+        r = _temp_def(f, src, test)
+        if r is None:
+            continue
+        value, dids = r
+
+        def make(value=value, dids=dids):
+            new = _copy(value)
+            new._sf_eval = dids
+            return new
+
+        repl[id(n)] = make
+    return _copy(e, repl) if repl else None
+
+
+def _readings(f, e, truth, test, depth=3):
+    """Atoms (expr, truth) implied by `e == truth`: as written and with temporaries read through, level by level."""
+    out = []
+    for a, p in split_atoms(e, truth):
+        out.append((a, p))
+        if depth > 0:
+            x = _expand1(f, a, test)
+            if x is not None:
+                out.extend(_readings(f, x, p, test, depth - 1))
+    return out
+
+
+def xguard_atoms(f, nid):
+    """`guard_atoms` with every test read through its temporaries (see above): (expr, truth, test node id).  The atoms
+    of the test as written come first; the additional readings are fresh expressions (names resolve as in f)."""
+    g = f.cfg
+    per = _XTESTS.get(f)
+    if per is None:
+        per = _XTESTS[f] = {}
+    out = []
+    for t in g.nodes.values():
+        if t.kind != "test" or t.ast is None or t.id == nid:
+            continue
+        for kind, truth in (("t", True), ("f", False)):
+            if only_via(g, t.id, kind, nid):
+                k = (t.id, truth)
+                if k not in per:
+                    per[k] = _readings(f, t.ast, truth, t)
+                out.extend((e, p, t.id) for e, p in per[k])
+    return out
+
+
 # --------------------------------------------------------------------------- R1
 
 
@@ -455,7 +599,7 @@ def r1(ctx):
                                witness=[f"snapshot: {here}"] + [f"later update of {VIEW_ATTR[o.view]}[...]: `{t}`" for t in qs])
                 absent = False
                 for nid in o.ids:
-                    for e, truth, _t in guard_atoms(g, nid):
+                    for e, truth, _t in xguard_atoms(f, nid):
                         m = membership_atom(e, truth)
                         if m and ktext(f, m[0]) == o.key and not m[2]:
                             c = m[1]
@@ -736,7 +880,7 @@ def r3(ctx):
             _loop, _lview, node_key, _copied, _ = lp
             cid = ids_at(f, c)
             ctx.require(bool(cid), f"C20.R3: no CFG node for {unparse(c)}")
-            atoms = [a for nid in cid for a in guard_atoms(g, nid)]
+            atoms = [a for nid in cid for a in xguard_atoms(f, nid)]
             empt_tests = []
             for e, truth, tid in atoms:
                 em = emptiness_atom(e, truth)
@@ -855,7 +999,7 @@ def _membership_guard(ctx, f, param, absent_is_bad, label, must_raise=False):
     tests = set()
     for nid in set(mut_ids):
         found = False
-        for e, truth, tid in guard_atoms(g, nid):
+        for e, truth, tid in xguard_atoms(f, nid):
             m = membership_atom(e, truth)
             if m and ktext(f, m[0]) == param:
                 c = m[1]
@@ -1016,7 +1160,7 @@ def r4(ctx):
             if isinstance(a.func, ast.Attribute) and a.func.attr in ("add", "append") and isinstance(a.func.value, ast.Name) and a.func.value.id == coll and len(a.args) == 1:
                 pk = ktext(f, a.args[0])
                 for nid in ids_at(f, a):
-                    for e, truth, _t in guard_atoms(g, nid):
+                    for e, truth, _t in xguard_atoms(f, nid):
                         em = emptiness_atom(e, truth)
                         if em and em[1]:
                             m, depth = _root_map(f, em[0], ("port_tokens",))
@@ -1304,6 +1448,31 @@ VARIANTS = [
       _PS_BODY_TEMPRET.replace("_sf_ret = self.remove_nodes(to_delete)\n    return _sf_ret", "self.remove_nodes(to_delete)\n    _sf_ret = []\n    return _sf_ret"), "R3"),
     V("successors leaks the internal set through a temporary assigned on two branches", FILE, f"{G}.successors", "return set(self._successors[node])",
       "if node in self._successors:\n        res = self._successors[node]\n        return res\n    res = set()\n    return res", "R2"),
+    # ---- tests read through temporaries: a stale temporary is not a test of the collection
+    V("move_token_to_root: port size measured before the token is removed from the port (stale temporary tested)", FILE, f"{MAPPER}.move_token_to_root",
+      "if removed_token_id in token_list:\n                self.port_tokens[port_name].remove(removed_token_id)\n            if len(self.port_tokens[port_name]) == 0:",
+      "_sf_l = len(self.port_tokens[port_name])\n            if removed_token_id in token_list:\n                self.port_tokens[port_name].remove(removed_token_id)\n            if _sf_l == 0:", "R4"),
+    V("promote: successor count taken before the edge is dropped (stale temporary tested)", FILE, f"{DAG}.promote_to_source",
+      "self._successors[pred].discard(node)\n        self._predecessors[node].discard(pred)\n        if not self._successors[pred]:",
+      "_sf_n = len(self._successors[pred])\n        self._successors[pred].discard(node)\n        self._predecessors[node].discard(pred)\n        if _sf_n == 0:", "R3"),
+    V("remove_nodes: temporary holding the emptiness of another node's successor set", FILE, f"{G}.remove_nodes",
+      "if prune_dead_end and (not self._successors[pred].difference(stack)):",
+      "_sf_l = len(self._successors[current].difference(stack))\n            if prune_dead_end and _sf_l == 0:", "R3"),
+    V("benign: operand of the port emptiness test held in a temporary (`_sf_l = len(..); if _sf_l == 0`)", FILE, f"{MAPPER}.move_token_to_root",
+      "if len(self.port_tokens[port_name]) == 0:", "_sf_l = len(self.port_tokens[port_name])\n            if _sf_l == 0:", None),
+    V("benign: the whole port emptiness test held in a temporary, logging in between", FILE, f"{MAPPER}.move_token_to_root",
+      "if len(self.port_tokens[port_name]) == 0:",
+      "tokens_left = self.port_tokens[port_name]\n            drained = not tokens_left\n            logger.debug('checked')\n            if drained:", None),
+    V("benign: promote tests the emptiness through two temporaries", FILE, f"{DAG}.promote_to_source", "if not self._successors[pred]:",
+      "_sf_n = len(self._successors[pred])\n        _sf_dead = _sf_n == 0\n        if _sf_dead:", None),
+    V("benign: remove_nodes tests the remaining successors through a temporary", FILE, f"{G}.remove_nodes",
+      "if prune_dead_end and (not self._successors[pred].difference(stack)):",
+      "_sf_l = len(self._successors[pred].difference(stack))\n            if prune_dead_end and _sf_l == 0:", None),
+    V("benign: replace guards tested through temporaries", FILE, f"{G}.replace",
+      "if old_node not in self._successors.keys():\n        return\n    if new_node in self._successors.keys():",
+      "_sf_k = self._successors.keys()\n    _sf_absent = old_node not in _sf_k\n    if _sf_absent:\n        return\n    _sf_taken = new_node in self._successors\n    if _sf_taken:", None),
+    V("benign: _add_node membership test through a temporary", FILE, f"{G}._add_node", "if node not in self._successors.keys():",
+      "_sf_known = self._successors.keys()\n    if node not in _sf_known:", None),
     # ---- benign
     V("benign: every return through one temporary (`_sf_ret = []; return _sf_ret` ... `_sf_ret = self.remove_nodes(..); return _sf_ret`)", FILE,
       f"{DAG}.promote_to_source", _PS_BODY, _PS_BODY_TEMPRET, None),
